@@ -292,7 +292,11 @@ func (in *Interp) execSSA(caller *frame, fn *ssa.Function, args []Value, env []V
 		o.Pkg.Build()
 	}
 	if fn.Blocks == nil {
-		panic(unsupported("no code for function: " + name))
+		callers := ""
+		for f, n := in.top, 0; f != nil && n < 4; f, n = f.caller, n+1 {
+			callers += " <- " + f.fn.String()
+		}
+		panic(unsupported("no code for function: " + name + callers))
 	}
 	if fn.TypeParams().Len() > 0 && len(fn.TypeArgs()) == 0 {
 		panic(unsupported("uninstantiated generic " + name))
